@@ -10,6 +10,7 @@ from __future__ import annotations
 
 import ast
 import builtins
+import functools
 import inspect
 import math
 import os
@@ -37,6 +38,7 @@ from vlib.ksvalues import (
 )
 
 QUERY_TIMEOUT_MS = 60_000
+BITOP_WIDTH = 72
 
 
 class Inconclusive(Exception):
@@ -150,12 +152,48 @@ class Path:
         return type(self.value).__name__ if self.outcome == "raise" else None
 
 
-def explore(run, assumptions=(), max_paths=5000):
-    """run(ctx) -> value (or raises PyRaise).  Returns list[Path]."""
+def _snapshot_modules(modules):
+    import copy
+
+    snap = []
+    for m in modules:
+        for k, v in list(vars(m).items()):
+            if type(v) in (dict, list, set) and not k.startswith("__"):
+                try:
+                    snap.append((m, k, v, copy.deepcopy(v)))
+                except Exception:
+                    pass
+    return snap
+
+
+def _restore_modules(snap):
+    import copy
+
+    for m, k, obj, saved in snap:
+        # restore in place (other references to the same object must see the pristine content) and rebind
+        fresh = copy.deepcopy(saved)
+        if isinstance(obj, dict):
+            obj.clear()
+            obj.update(fresh)
+        elif isinstance(obj, list):
+            obj[:] = fresh
+        else:
+            obj.clear()
+            obj.update(fresh)
+        setattr(m, k, obj)
+
+
+def explore(run, assumptions=(), max_paths=5000, modules=()):
+    """run(ctx) -> value (or raises PyRaise).  Returns list[Path].
+    `modules`: repository modules whose module-level containers are restored before every path (the interpreter
+    mutates real module state, e.g. a cache dict; paths must not see each other's writes)."""
     work = [[]]
     paths = []
+    snap = _snapshot_modules(modules)
     while work:
         dec = work.pop()
+        if snap:
+            _restore_modules(snap)
         ctx = Ctx(dec, assumptions)
         try:
             v = run(ctx)
@@ -167,6 +205,8 @@ def explore(run, assumptions=(), max_paths=5000):
         work.extend(ctx.pending)
         if len(paths) > max_paths:
             raise Inconclusive("path budget exceeded")
+    if snap:
+        _restore_modules(snap)
     return paths
 
 
@@ -286,6 +326,7 @@ class Interp:
         self.force = force_interpret
         self.depth = 0
         self.encoded = set()
+        self.memo = {}
 
     # ---------------------------------------------------------------- helpers
     def truthy(self, v) -> bool:
@@ -344,6 +385,22 @@ class Interp:
             self.depth -= 1
 
     def _call(self, f, args, kwargs):
+        if isinstance(f, functools._lru_cache_wrapper):
+            # honour memoisation (per explored path): the decorated function is interpreted once per distinct concrete
+            # argument tuple; a stale entry is exactly what a history obligation must be able to see
+            if not any(deep_sym(a) for a in args) and not kwargs:
+                try:
+                    key = (id(f), tuple(args))
+                    hash(key)
+                except TypeError:
+                    key = None
+                if key is not None:
+                    if key in self.memo:
+                        return self.memo[key]
+                    r = self._call(f.__wrapped__, args, kwargs)
+                    self.memo[key] = r
+                    return r
+            return self._call(f.__wrapped__, args, kwargs)
         if isinstance(f, LocalFunction):
             return self.run_function(f.node, None, args, kwargs, parent=f.frame)
         if isinstance(f, BoundMethod):
@@ -365,6 +422,21 @@ class Interp:
                 out = out.concat(part)
             c = out.concrete()
             return c if c is not None else out
+        if symbolic and type(owner) is dict and args and isinstance(args[0], AbsStr) and getattr(f, "__name__", "") in ("get", "setdefault", "pop"):
+            kk = self.dict_find(owner, args[0])
+            nm = f.__name__
+            if nm == "get":
+                return owner[kk] if kk is not None else (args[1] if len(args) > 1 else None)
+            if nm == "setdefault":
+                if kk is None:
+                    owner[args[0]] = args[1] if len(args) > 1 else None
+                    return owner[args[0]]
+                return owner[kk]
+            if kk is None:
+                if len(args) > 1:
+                    return args[1]
+                self.raise_(KeyError(args[0].name))
+            return owner.pop(kk)
         if symbolic and owner is not None and not isinstance(owner, type):
             # storing symbolic values into model recorders / plain containers is just bookkeeping
             if isinstance(owner, _Recorder) or (type(owner) in (list, dict, set) and getattr(f, "__name__", "") in _CONTAINER_STORE):
@@ -505,6 +577,10 @@ class Interp:
         elif isinstance(t, ast.Subscript):
             o = self.eval(t.value, fr)
             k = self.eval(t.slice, fr)
+            if isinstance(k, AbsStr) and type(o) is dict:
+                kk = self.dict_find(o, k)
+                o[kk if kk is not None else k] = v
+                return
             if is_sym(k):
                 raise Unsupported("symbolic subscript store")
             try:
@@ -724,6 +800,10 @@ class Interp:
             return -v
         if isinstance(e.op, ast.UAdd):
             return v
+        if isinstance(e.op, ast.Invert):
+            if isinstance(v, SInt):
+                return SInt(-v.t - 1)
+            return ~v
         raise Unsupported("unary " + type(e.op).__name__)
 
     def e_BinOp(self, e, fr):
@@ -826,6 +906,16 @@ class Interp:
         except AttributeError as ex:
             raise PyRaise(ex)
 
+    def dict_find(self, d, k):
+        """Key object of dict `d` equal to the abstract string `k` (decided by the solver per candidate), or None."""
+        for kk in list(d.keys()):
+            if kk is k:
+                return kk
+            if isinstance(kk, AbsStr):
+                if self.ctx.branch(kk.ident == k.ident):
+                    return kk
+        return None
+
     def e_Subscript(self, e, fr):
         o = self.eval(e.value, fr)
         if isinstance(e.slice, ast.Slice):
@@ -838,6 +928,11 @@ class Interp:
                 raise Unsupported("symbolic slice")
             return o[lo:hi:st]
         k = self.eval(e.slice, fr)
+        if isinstance(k, AbsStr) and type(o) is dict:
+            kk = self.dict_find(o, k)
+            if kk is None:
+                self.raise_(KeyError(k.name))
+            return o[kk]
         if is_sym(o) or is_sym(k):
             raise Unsupported("symbolic subscript")
         try:
@@ -932,6 +1027,29 @@ class Interp:
                 return SInt(ta / (1 << b))
             if op is ast.BitAnd and isinstance(b, int) and b >= 0 and (b & (b + 1)) == 0:
                 return SInt(ta % (b + 1))
+            if op is ast.BitAnd and (isinstance(a, int) or isinstance(b, int)):
+                # symbolic & constant, exact in integer arithmetic for a non-negative symbolic operand:
+                #   x & k  = sum of 2^i * ((x div 2^i) mod 2) over the set bits of k          (k >= 0)
+                #   x & ~k = x - (x & k)                                                       (mask = ~k < 0)
+                k, x = (a, tb) if isinstance(a, int) else (b, ta)
+                if not self.ctx.branch(x >= 0):
+                    raise Unsupported("bit-and of a negative symbolic int")
+                kk = k if k >= 0 else ~k
+                if kk.bit_length() <= 40:
+                    low = z3.IntVal(0)
+                    for i in range(kk.bit_length()):
+                        if (kk >> i) & 1:
+                            low = low + (2**i) * ((x / (2**i)) % 2)
+                    return SInt(z3.simplify(low if k >= 0 else x - low))
+            if op in (ast.BitAnd, ast.BitOr, ast.BitXor):
+                # two's complement on BITOP_WIDTH bits (exact while both operands fit; checked on the path)
+                W = BITOP_WIDTH
+                lim = 2 ** (W - 1)
+                if not self.ctx.branch(z3.And(ta >= -lim, ta < lim, tb >= -lim, tb < lim)):
+                    raise Unsupported("bit operation operand beyond the modelled width")
+                x, y = z3.Int2BV(ta, W), z3.Int2BV(tb, W)
+                r = {ast.BitAnd: x & y, ast.BitOr: x | y, ast.BitXor: x ^ y}[op]
+                return SInt(z3.BV2Int(r, is_signed=True))
             raise Unsupported("integer operator " + op.__name__)
         raise Unsupported(f"operator {op.__name__} on {type(a).__name__}, {type(b).__name__}")
 
@@ -1024,6 +1142,8 @@ class Interp:
                     elif r:
                         return True
                 return res
+            if type(container) is dict and isinstance(x, AbsStr):
+                return self.dict_find(container, x) is not None
             if isinstance(container, dict) or hasattr(container, "keys"):
                 if isinstance(x, TokStr) and x.concrete() is not None:
                     return x.concrete() in container
@@ -1164,6 +1284,46 @@ def m_rope_ljust(it, r, width, fill=b" "):
     return r.concat(Rope([Seg("fill", f[0], z3.simplify(w - term(n)))]))
 
 
+def m_rope_lstrip(it, r, chars=None):
+    """bytes.lstrip(chars): removes leading bytes contained in `chars` (bounded: constant prefix + up to 4 symbolic bytes)."""
+    if chars is None or is_sym(chars):
+        raise Unsupported("lstrip without concrete byte set")
+    segs = list(r.segs)
+    budget = 4
+    while segs:
+        sg = segs[0]
+        if sg.kind == "const":
+            stripped = sg.a.lstrip(chars)
+            if stripped:
+                segs[0] = Seg("const", stripped)
+                return Rope(segs)
+            segs.pop(0)
+            continue
+        if sg.kind == "fill":
+            if sg.a in chars:
+                segs.pop(0)
+                continue
+            return Rope(segs)
+        if sg.kind == "int" and sg.c == "big" and isinstance(sg.b, int):
+            if sg.b == 0:
+                segs.pop(0)
+                continue
+            top = sg.a / (256 ** (sg.b - 1))
+            if budget == 0:
+                # bound of the model: at most 4 stripped bytes per integer field; deeper repetition is assumed away
+                it.ctx.assume(z3.Not(z3.Or(*[top == c for c in chars])))
+                return Rope(segs)
+            if it.ctx.branch(z3.Or(*[top == c for c in chars])):
+                budget -= 1
+                if budget < 0:
+                    raise Inconclusive("lstrip unwinding bound (more than 4 leading stripped bytes of one integer field)")
+                segs[0] = Seg("int", sg.a % (256 ** (sg.b - 1)), sg.b - 1, "big")
+                continue
+            return Rope(segs)
+        raise Unsupported("lstrip reaches an opaque segment")
+    return Rope(segs)
+
+
 def m_rope_hex(it, r):
     raise Unsupported("hex of symbolic bytes")
 
@@ -1230,6 +1390,7 @@ _SYM_METHODS = {
     (SInt, "to_bytes"): m_int_to_bytes,
     (SInt, "bit_length"): m_int_bit_length,
     (Rope, "ljust"): m_rope_ljust,
+    (Rope, "lstrip"): m_rope_lstrip,
     (Rope, "hex"): m_rope_hex,
     (TokStr, "replace"): m_tok_replace,
     (TokStr, "split"): m_tok_split,
@@ -1653,7 +1814,16 @@ def _minmax(pick_first_if):
     return model
 
 
+def model_sum(it, args, kwargs):
+    xs = list(args[0])
+    acc = args[1] if len(args) > 1 else kwargs.get("start", 0)
+    for x in xs:
+        acc = it.binop(ast.Add, acc, x)
+    return acc
+
+
 BASE_MODELS = {
+    sum: model_sum,
     min: _minmax("lt"),
     max: _minmax("gt"),
     len: model_len,
